@@ -33,13 +33,11 @@ const PTR_MASK: usize = !TAG_MASK;
 /// The amount of bits to shift-left the actual value in value objects (last 3 bits store the type tag)
 const VALUE_SHIFT_BITS: usize = 3;
 
-#[allow(unused)]
 /// The max integer value we can store in a value object
-const MAX_INT: isize = std::isize::MAX >> VALUE_SHIFT_BITS;
+pub(crate) const MAX_INT: isize = std::isize::MAX >> VALUE_SHIFT_BITS;
 
-#[allow(unused)]
 /// The minimum integer value we can store in a value object
-const MIN_INT: isize = std::isize::MIN >> VALUE_SHIFT_BITS;
+pub(crate) const MIN_INT: isize = std::isize::MIN >> VALUE_SHIFT_BITS;
 
 #[derive(Debug, PartialEq)]
 #[repr(u8)]
@@ -370,7 +368,7 @@ impl PartialOrd for Object {
 }
 
 macro_rules! impl_arith {
-    ($func_name:ident, $op:tt) => {
+    ($func_name:ident, $op:tt, $checked:ident) => {
         #[inline(always)]
         pub(crate) fn $func_name(self, rhs: Self, gc: &mut GC) -> Result<Object, Error> {
             if self.tag() != rhs.tag() {
@@ -378,7 +376,11 @@ macro_rules! impl_arith {
             }
 
             let result = match self.tag() {
-                Type::Int => Object::int(self.as_int() $op rhs.as_int()),
+                // Integers are 61 bits wide: a result outside that range, or a zero divisor, is an error
+                Type::Int => match self.as_int().$checked(rhs.as_int()) {
+                    Some(value) if (MIN_INT..=MAX_INT).contains(&value) => Object::int(value),
+                    _ => return Err(Error::TypeError(format!("uitkomst van {} valt buiten het bereik van een geheel getal (of deling door nul)", stringify!($op)))),
+                },
 
                 // Safety: We've already asserted the object type
                 Type::Float => unsafe {
@@ -420,11 +422,11 @@ macro_rules! impl_cmp {
 }
 
 impl Object {
-    impl_arith!(add, +);
-    impl_arith!(sub, -);
-    impl_arith!(mul, *);
-    impl_arith!(div, /);
-    impl_arith!(rem, %);
+    impl_arith!(add, +, checked_add);
+    impl_arith!(sub, -, checked_sub);
+    impl_arith!(mul, *, checked_mul);
+    impl_arith!(div, /, checked_div);
+    impl_arith!(rem, %, checked_rem);
 
     impl_cmp!(gt, >);
     impl_cmp!(gte, >=);
